@@ -147,7 +147,7 @@ def generate(rng, i, tier):
             opsl.append({"op": "swap"})
         else:
             opsl.append({"op": "restart"})
-    return {"seed": rng.getrandbits(32), "listdir_salt": rng.choice([None, rng.getrandbits(16)]), "ops": opsl, "clock": rng.choice(["frozen", "frozen", "tick", "jumps"]), "log": rng.choice(["error"] * 5 + ["debug", "info"])}
+    return {"seed": rng.getrandbits(32), "listdir_salt": rng.choice([None, rng.getrandbits(16)]), "ops": opsl, "clock": rng.choice(["frozen", "frozen", "tick", "jumps"]), "log": rng.choice(["error"] * 5 + ["debug", "info"]), "inputs_prefix": rng.choice([""] * 4 + ["./", ".//"])}
 
 
 def reductions(sc):
@@ -177,6 +177,8 @@ def reductions(sc):
         yield with_(sc, clock="frozen")
     if sc.get("log", "error") != "error":
         yield with_(sc, log="error")
+    if sc.get("inputs_prefix"):
+        yield with_(sc, inputs_prefix="")
 
 
 def _strip(lst):
@@ -325,7 +327,7 @@ def _disk(out, model, step):
 def execute(sc):
     out = Out()
     seams.reset(sc["seed"], listdir_salt=sc.get("listdir_salt"))
-    with W.World(log_level=sc.get("log", "error")):
+    with W.World(log_level=sc.get("log", "error"), inputs_prefix=sc.get("inputs_prefix", "")):
         cs = ops.new_csvpaths()
         cs_alt = None
         model = {}
